@@ -13,7 +13,8 @@ From SV Require Import Base.Base IR.State IR.NS IR.Ops Hier.Paths Hier.Trace
   Proofs.NsInv Proofs.QueryEnumBase Proofs.QueryEnumInst Proofs.QueryEnumPorts Proofs.QueryEnumNetl
   Proofs.QueryEnumPins Proofs.QueryEnumDefs Proofs.QueryEnumLibs Proofs.QueryEnumCables Proofs.QueryEnumFull Proofs.QueryEnumEx
   Proofs.QueryEnumTerm Proofs.QueryEnumTerm2 Proofs.QueryEnumWires Proofs.QueryEnumWiresSpec Proofs.QueryEnumWiresAll
-  Proofs.QueryEnumCablesAll Proofs.QueryEnumAllFull Proofs.QueryEnumWiresAllRoots Proofs.QueryEnumCablesAllRoots Proofs.QueryEnumLookIdent.
+  Proofs.QueryEnumCablesAll Proofs.QueryEnumAllFull Proofs.QueryEnumWiresAllRoots Proofs.QueryEnumCablesAllRoots Proofs.QueryEnumLookIdent
+  Proofs.QueryEnumPolCoh Proofs.QueryEnumLookAll.
 Import ListNotations.
 Local Open Scope string_scope.
 Local Open Scope list_scope.
@@ -249,12 +250,24 @@ Print Assumptions C13_lookup_hypothesis_default_policy.
    scan compares an identifier the way the namespace of the child does): the table answers with the
    child whose lower-cased identifier is the lower-cased value (C10's invariant NsInv) and the scan
    returns exactly that child - provided the children of a parent with an EDIF table are themselves
-   under the EDIF policy (PolCoh: child[".NS"] follows the parent, NamespaceManager.add). PolCoh is a
-   hypothesis here: it is not among the invariants proved for C10. *)
+   under the EDIF policy (PolCoh: child[".NS"] follows the parent, NamespaceManager.add). PolCoh holds in
+   every state reached by editing calls (C13_policy_coherence_reachable), so the hypothesis LookOK is
+   discharged there for both registered keys (C13_lookup_hypothesis_reachable) - no side condition left. *)
 Theorem C13_lookup_hypothesis_for_identifiers : forall s reg r,
   NsInv s -> ns_rel r = true -> (forall p, NoDup (kids s r p)) -> PolCoh s r -> LookOK s reg str_IDENT r.
 Proof. exact lookok_edif_ident. Qed.
 Print Assumptions C13_lookup_hypothesis_for_identifiers.
+
+Theorem C13_policy_coherence_reachable : forall ops r, ns_rel r = true -> PolCoh (Ops.run ops State.init) r.
+Proof. exact reachable_polcoh. Qed.
+Print Assumptions C13_policy_coherence_reachable.
+
+(* in every state reached by editing calls: global_service.lookup = the scan, for .NAME and for
+   EDIF.identifier, under either policy, lookups registered or not (user keys: C13_lookup_hypothesis_for_scanned_keys) *)
+Theorem C13_lookup_hypothesis_reachable : forall ops reg r, ns_rel r = true ->
+  LookOK (Ops.run ops State.init) reg str_NAME r /\ LookOK (Ops.run ops State.init) reg str_IDENT r.
+Proof. exact (fun ops reg r Hr => conj (reachable_lookok_name ops reg r Hr) (reachable_lookok_ident ops reg r Hr)). Qed.
+Print Assumptions C13_lookup_hypothesis_reachable.
 
 (* the former witness of C13-K3: child 10 carries the identifier x; exact pattern, registered and
    deregistered lookups, and the wildcard form agree *)
